@@ -217,7 +217,7 @@ def check_c16(sc, an):
     failed_acts = [a for a in failed_acts
                    if an.spec[a.node]['op'] != 'sink' or an.spec[a.node].get('kind', 'sync') == 'sync'
                    or a.root is None or an.emits.get(tuple(a.root)) is None
-                   or an.emits_wait(an.emits[tuple(a.root)].entry)]
+                   or (an.emits_wait(an.emits[tuple(a.root)].entry) and an.emits_wait(a.node))]
     # 1. every injected failure that fired reaches the caller of the emit whose extent it is in
     for a in failed_acts:
         root = tuple(a.root) if a.root is not None else None
